@@ -8,13 +8,16 @@ cd "$(dirname "$0")"; ROOT="$(pwd)"
 export VERIF_ROOT="$ROOT" VERIF_EVIDENCE_DIR="$ROOT/target/sweep-out/evidence" VERIF_REPLAY_DIR="$ROOT/target/sweep-out/replays"
 mkdir -p "$VERIF_EVIDENCE_DIR" "$VERIF_REPLAY_DIR"
 . "$ROOT/runs_table.sh"
-mode="${3:-quick}"   # quick | thorough | <seconds> | x<k> (k times the quick run count, no wall-clock cap)
+mode="${3:-quick}"   # quick | thorough | <seconds> | x<k> (k times the quick run count, no wall-clock cap) | r<a>-<b> (runs a*N..b*N; dsim/osim: 0..b*N)
 for s in $1; do
   for p in $2; do
     case "$p" in C20|C21) bin="$ROOT/target/osim/release/osim";; C18|C22|C23|C24) bin="$ROOT/target/dsim/release/dsim";; *) bin="$ROOT/target/small/release/wsim";; esac
     t0=$(date +%s)
     case "$mode" in
       quick|thorough) out=$(VERIF_SEED=$s ${4:+VERIF_START_INDEX=$4} "$bin" run $p $mode 2>&1); code=$? ;;
+      r*) a=${mode#r}; b=${a#*-}; a=${a%-*}; n=$(quick_runs $p)
+          case "$p" in C18|C2*) out=$(VERIF_SEED=$s VERIF_BUDGET_S=20000 VERIF_MAX_RUNS=$(( b * n )) "$bin" run $p quick 2>&1); code=$? ;;
+            *) out=$(VERIF_SEED=$s VERIF_BUDGET_S=20000 VERIF_START_INDEX=$(( a * n )) VERIF_MAX_RUNS=$(( (b - a) * n )) "$bin" run $p quick 2>&1); code=$? ;; esac ;;
       x*) out=$(VERIF_SEED=$s VERIF_BUDGET_S=20000 VERIF_MAX_RUNS=$(( ${mode#x} * $(quick_runs $p) )) "$bin" run $p quick 2>&1); code=$? ;;
       *) out=$(VERIF_SEED=$s VERIF_BUDGET_S=$mode "$bin" run $p quick 2>&1); code=$? ;;
     esac
